@@ -11,6 +11,8 @@ for n in "${names[@]}"; do
   id=${n:0:3}
   alt=$(python3 -c "import json,sys; print(json.load(open('seeded/$n/meta.json')).get('evaluation',{}).get('regress_with',''))" 2>/dev/null)
   [ -n "$alt" ] && id=$alt
+  miss=$(python3 -c "import json,sys; print(json.load(open('seeded/$n/meta.json')).get('evaluation',{}).get('caught',True))" 2>/dev/null)
+  if [ "$miss" = "False" ]; then echo "$n: recorded as NOT caught by any check (open item, see DESIGN section 11) - skipped"; continue; fi
   git -C /repo worktree add -q --detach "$wt" HEAD || { echo "$n: cannot create worktree"; bad=1; continue; }
   if ! git -C "$wt" apply "$PWD/seeded/$n/patch.diff" 2>/dev/null; then
     echo "$n: patch does not apply to the current HEAD (skipped)"
